@@ -940,6 +940,69 @@ def _do(container, f):
 
 # ------------------------------------------------------------------------------------------
 
+def part_f(ctx):
+    """A verdict follows the CONTENT, not the history: records with a component-presence constraint on an OPTIONAL
+    constructed member, whose inner object is reached by reference and changed directly (append / assignment / clear on
+    the member, never through the record) between two uses of the record.  After every step the record must be accepted
+    or refused by every encoder exactly like a record built afresh with the same content, and give the same octets."""
+    from pyasn1.type import namedtype as _nt
+    encs = [('ber', ber_enc), ('cer', cer_enc), ('der', der_enc)]
+    def mk(cls, pattern):
+        consts = [(nm, C.ComponentPresentConstraint() if w == 'P' else C.ComponentAbsentConstraint()) for nm, w in zip(('items', 'sub'), pattern) if w != '-']
+        return cls(componentType=_nt.NamedTypes(
+            _nt.NamedType('k', univ.Integer()),
+            _nt.OptionalNamedType('items', univ.SequenceOf(componentType=univ.Integer())),
+            _nt.OptionalNamedType('sub', univ.Sequence(componentType=_nt.NamedTypes(_nt.OptionalNamedType('x', univ.Integer()), _nt.OptionalNamedType('y', univ.OctetString())))))
+        ).subtype(subtypeSpec=C.WithComponentsConstraint(*consts))
+    def outcome(v):
+        outs = []
+        for name, enc in encs:
+            try: outs.append((name, 'ok', bytes(enc.encode(v)).hex()))
+            except error.PyAsn1Error as e: outs.append((name, 'refused', ''))
+            except Exception as e: outs.append((name, 'raised ' + type(e).__name__, ''))
+        return outs
+    steps_all = [[('items.append', 7)], [('items.append', 7), ('items.append', 8)], [('sub.x', 3)], [('items.append', 1), ('sub.x', 2)],
+                 [('sub.x', 3), ('items.append', 7)], [('items.append', 5), ('items.clear', None)], [('sub.y', b'q'), ('sub.x', 1)]]
+    for cls in (univ.Sequence, univ.Set):
+        for pattern in ('A-', 'P-', '-A', '-P', 'AA', 'PA', 'AP', 'PP'):
+            for steps in steps_all:
+                for use in ('encode', 'str', 'isInconsistent'):
+                    T = mk(cls, pattern)
+                    live = T.clone(); live['k'] = 1
+                    items, sub = live['items'], None        # a reference; `sub` is fetched when first edited (a read of an all-OPTIONAL SEQUENCE member makes BER write it as present and empty: that is not this property's subject)
+                    fresh_content = {'items': None, 'sub': {}}
+                    history = []
+                    def fresh():
+                        f = T.clone(); f['k'] = 1
+                        if fresh_content['items'] is not None:
+                            f['items'].clear(); f['items'].extend(fresh_content['items'])
+                        for nm, val in fresh_content['sub'].items():
+                            f['sub'][nm] = val
+                        return f
+                    for stepno, (op, arg) in enumerate([('nothing', None)] + steps):
+                        if op == 'items.append': items.append(arg); fresh_content['items'] = (fresh_content['items'] or []) + [arg]
+                        elif op == 'items.clear': items.clear(); fresh_content['items'] = []
+                        elif op.startswith('sub.'):
+                            if sub is None: sub = live['sub']
+                            sub[op[4:]] = arg; fresh_content['sub'][op[4:]] = arg
+                        history.append(op)
+                        # a use of the record in between (what a cached verdict would be computed by)
+                        if use == 'str':
+                            try: str(live)
+                            except Exception: pass
+                        elif use == 'isInconsistent':
+                            try: bool(live.isInconsistent)
+                            except Exception: pass
+                        got, want = outcome(live), outcome(fresh())
+                        ctx.case(('verdict-follows-content', cls.__name__, pattern, tuple(history), use), True)
+                        ctx.stats['f: record verdicts after in-place edits of a member'] += 1
+                        if got != want:
+                            ctx.prop_fail('a record edited through a reference to its member is judged differently from a record built afresh with the same content',
+                                          {'outer': cls.__name__, 'constraint': 'WITH COMPONENTS items:%s sub:%s' % tuple(pattern), 'history': list(history),
+                                           'use_between': use, 'live': got, 'fresh': want})
+                            break
+
+
 def run(ctx):
     ctx.rule = ('(a) expression trees of depth 1..4 over all 12 public constraint classes, built per value kind '
                 '(int, bytes, text, oid, bit string, record/list) with a share of kind-mixing and of plain-value '
@@ -957,6 +1020,7 @@ def run(ctx):
     part_c(ctx, exprs, meta)
     part_d(ctx, exprs, meta)
     part_e(ctx, exprs, meta)
+    part_f(ctx)
     ctx.stats['coq_evaluations'] = len(exprs)
     for i in core.coq_bools('c14', IMPORTS, exprs, shard=400):
         what, case, fid = meta[i]
